@@ -98,6 +98,17 @@ def run(ctx):
     ctx.disagreements += len(bad)
     ctx.disagreements_checked = len(bad)
 
+    # ---- an input that dies with CancelledError of its own (the consumer is not being cancelled)
+    rngc = random.Random(ctx.seed * 61 + 9)
+    ncan, raised_ok = ctx.n(40, 600), 0
+    for _ in range(ncan):
+        w, facts = U.merge_cancelled_input_case(rngc)
+        ctx.count(1, ("merge-cancelled-input", facts["inputs"], tuple(facts["lengths"]), facts["victim"], facts["dies_after"]))
+        raised_ok += 0 if w else 1
+        if w:
+            failures.append(("merge-cancelled-input", w, dict(kind="implementation-monitor", input=facts)))
+    ctx.suite("iterutils.cancelled_input", cases=ncan, error_reached_the_consumer=raised_ok)
+
     seen = set()
     for clause, text, rep in failures:
         if clause in seen:
